@@ -56,6 +56,15 @@ CLAIMED["C18"] = dict(
     design_ref="DESIGN.md §4 C18",
 )
 
+CLAIMED["C02"] = dict(
+    engine="symx",
+    technique="symbolic execution of (*TestScript).parse/expand (with os.Expand and regexp.QuoteMeta from SSA) against a reference tokenizer; z3 decides every line byte",
+    text=("(*TestScript).parse, expand, Setenv/Getenv and the env builtin are executed symbolically: (a) every line up to the length bound is compared with a reference tokenizer written "
+          "from the documentation; (b) any list of words with arbitrary bytes, quoted and joined, parses back to exactly those words; (c) after any bounded history of assignments, "
+          "$K, ${K} and ${K@R} expand to the latest value inside one word, without re-splitting or re-expansion, and the environment list agrees with the variable map."),
+    design_ref="DESIGN.md §4 C02",
+)
+
 NOT_APPLICABLE = {
     "C20": "goproxytest's behaviour lives in net/http, archive/zip+flate, encoding/json (reflection) and directory walks; none is encodable by the SSA symbolic executor, and with them stubbed nothing solver-relevant remains (its once-per-key ingredient is par.Cache = C10)",
 }
